@@ -235,16 +235,44 @@ func panicProp(stack string) string {
 	return "C20"
 }
 
+// rootFrame names the place where the root of a wait-for chain is stuck: the innermost go-data-transfer frame,
+// qualified by the entry point when that frame is a generic accessor of the channels package.
+func rootFrame(stack string) string {
+	f := firstLibFrameOf(stack)
+	if i := strings.Index(f, "<-"); i > 0 {
+		inner := f[:i]
+		if strings.HasPrefix(inner, "channels.") {
+			return f
+		}
+		return inner
+	}
+	return f
+}
+
 func firstLibFrameOf(stack string) string {
-	// for a blocked goroutine's stack: first frame that is in library code
+	// for a blocked goroutine's stack: the innermost frame in go-data-transfer itself (falling back to the
+	// innermost frame in one of its small dependencies), plus the outermost go-data-transfer frame when it differs
+	// (the entry point: which API call / hook the goroutine is in)
 	lines := strings.Split(stack, "\n")
+	inner, outer, dep := "", "", ""
 	for i := 1; i < len(lines)-1; i += 2 {
 		fn := lines[i]
-		if strings.Contains(fn, "go-data-transfer/v2") || strings.Contains(fn, "go-statemachine") || strings.Contains(fn, "go-pubsub") || strings.Contains(fn, "go-ds-versioning") {
-			return trimFrame(fn)
+		if strings.Contains(fn, "go-data-transfer/v2") {
+			if inner == "" {
+				inner = trimFrame(fn)
+			}
+			outer = trimFrame(fn)
+		} else if dep == "" && (strings.Contains(fn, "go-statemachine") || strings.Contains(fn, "go-pubsub") || strings.Contains(fn, "go-ds-versioning")) {
+			dep = trimFrame(fn)
 		}
 	}
-	return ""
+	if inner == "" {
+		return dep
+	}
+	if outer != inner {
+		return inner + "<-" + outer
+	}
+	return inner
 }
 
 // ---------------------------------------------------------------- executing one run
@@ -336,65 +364,56 @@ func ExecRun(t *testing.T, prop string, st Stratum, stIdx int, tape *simrt.Tape,
 				}
 				stk := stacks[c.Task.ID]
 				frame := firstLibFrameOf(stk)
-				// who holds the lock it waits for?
-				victimOf := ""
-				hs := simrt.HoldersOf(c.Task)
-				// follow the wait-for chain to its root (or detect a cycle)
-				seen := map[*simrt.Task]bool{c.Task: true}
-				cycle := false
-				for len(hs) > 0 {
-					nxt := simrt.HoldersOf(hs[0])
-					if len(nxt) == 0 {
-						break
-					}
-					if seen[hs[0]] {
-						cycle = true
-						break
-					}
-					seen[hs[0]] = true
-					hs = nxt
-				}
-				if cycle {
-					victimOf = "lock-cycle:"
-				}
-				if len(hs) > 0 {
-					hst := s.StacksOf(hs)
-					for _, h := range hs {
-						hf := firstLibFrameOf(hst[h.ID])
-						victimOf += "lock-held-by:" + hf + "(" + h.BlockOn() + ")"
-						stk += "\n--- lock holder task " + h.ID + " (" + h.Name + ") blocked on " + h.BlockOn() + ":\n" + shortStack(hst[h.ID])
-					}
-				}
-				if strings.Contains(strings.ToLower(c.Name), "close") {
-					r.Fail("C09", "close-never-returned", frame, fmt.Sprintf("close call %s on %s (task %s) had not returned at quiescence after settle; blocked at %s\n%s", c.Name, c.Node, c.Task.ID, frame, shortStack(stk)))
-				}
-				if victimOf == "" && (strings.Contains(frame, "SendSync") || strings.Contains(frame, "go-statemachine")) {
-					// the call waits for the channel's state machine; the state machine's stage may itself be stuck behind a lock
-					for _, bt := range s.BlockedTasks() {
-						hs2 := simrt.HoldersOf(bt)
-						seen2 := map[*simrt.Task]bool{bt: true}
-						for len(hs2) > 0 {
-							nxt := simrt.HoldersOf(hs2[0])
-							if len(nxt) == 0 || seen2[hs2[0]] {
-								break
-							}
-							seen2[hs2[0]] = true
-							hs2 = nxt
+				// Find the root of the wait-for chain: lock holders, and - when the call waits for a channel's state
+				// machine (SendSync) - the state-machine stage that is itself stuck behind a lock.
+				rootOf := func(t *simrt.Task) (*simrt.Task, bool) {
+					seen := map[*simrt.Task]bool{t: true}
+					hs := simrt.HoldersOf(t)
+					var root *simrt.Task
+					for len(hs) > 0 {
+						root = hs[0]
+						if seen[root] {
+							return root, true
 						}
-						if len(hs2) > 0 {
-							hst := s.StacksOf(hs2)
-							victimOf = "state-machine-wedged-behind:lock-held-by:" + firstLibFrameOf(hst[hs2[0].ID]) + "(" + hs2[0].BlockOn() + ")"
-							stk += "\n--- a state-machine stage waits for a lock held by task " + hs2[0].ID + ":\n" + shortStack(hst[hs2[0].ID])
+						seen[root] = true
+						hs = simrt.HoldersOf(root)
+					}
+					return root, false
+				}
+				root, cycle := rootOf(c.Task)
+				if root == nil && strings.Contains(stk, "SendSync") {
+					for _, bt := range s.BlockedTasks() {
+						if bt.WaitsOn == nil {
+							continue
+						}
+						if rt, cyc := rootOf(bt); rt != nil {
+							root, cycle = rt, cyc
 							break
 						}
 					}
+				}
+				victimOf := ""
+				if root != nil {
+					rst := s.StacksOf([]*simrt.Task{root})[root.ID]
+					rf := rootFrame(rst)
+					kind := "lock-held-for-ever-by:"
+					if cycle {
+						kind = "lock-cycle-through:"
+					} else if strings.Contains(rst, "SendSync") {
+						kind = "lock-held-while-waiting-for-state-machine-whose-stage-needs-it:"
+					}
+					victimOf = kind + rf
+					stk += "\n--- root of the wait-for chain: task " + root.ID + " (" + root.Name + ") blocked on " + root.BlockOn() + ":\n" + shortStack(rst)
+				}
+				if strings.Contains(strings.ToLower(c.Name), "close") {
+					r.Fail("C09", "close-never-returned", frame, fmt.Sprintf("close call %s on %s (task %s) had not returned at quiescence after settle; blocked at %s\n%s", c.Name, c.Node, c.Task.ID, frame, shortStack(stk)))
 				}
 				if victimOf != "" {
 					// the root cause is the task that holds the lock for ever; name it, not the victim
 					r.Fail("C20", "call-never-returned", victimOf, fmt.Sprintf("call %s on %s (task %s) had not returned at quiescence after settle: it waits for a lock that is never released\n%s", c.Name, c.Node, c.Task.ID, shortStack(stk)))
 					continue
 				}
-				r.Fail("C20", "call-never-returned", callClass(c.Name)+"|"+frame+"|"+c.Task.BlockOn(),
+				r.Fail("C20", "call-never-returned", "stuck-at:"+rootFrame(stk)+"("+c.Task.BlockOn()+")",
 					fmt.Sprintf("call %s on %s (task %s) had not returned at quiescence after settle; blocked on %s at %s\n%s", c.Name, c.Node, c.Task.ID, c.Task.BlockOn(), frame, shortStack(stk)))
 			}
 		}
@@ -423,7 +442,7 @@ func callClass(n string) string {
 func shortStack(st string) string {
 	lines := strings.Split(st, "\n")
 	var out []string
-	for i := 0; i < len(lines) && len(out) < 40; i++ {
+	for i := 0; i < len(lines) && len(out) < 90; i++ {
 		l := lines[i]
 		if strings.Contains(l, "runtime/debug.Stack") || strings.Contains(l, "simrt.(*Sim).recoverTask") {
 			i++
